@@ -1125,9 +1125,26 @@ struct G {
 	fxs: u64,
 	/// allow modulator-linked values
 	mods: bool,
+	listeners: u64,
+	ghosts: u64,
+	/// spatial tracks made so far (listener-distance values are drawn once there is one)
+	spatial: u64,
+}
+
+/// a `Value::FromListenerDistance` descriptor with the given (already formatted) outputs
+fn dist_value(rng: &mut Rng, a: String, b: String) -> String {
+	let (i0, i1) = rng.pick(&[(0.0, 10.0), (1.0, 100.0), (10.0, 0.0), (0.0, 1.0), (2.0, 50.0), (0.0, 4.0)]);
+	format!("d{}_{}_{}_{}", o64(i0), o64(i1), a, b)
+}
+fn dist_on(rng: &mut Rng, g: &G) -> bool {
+	g.spatial > 0 && rng.chance(1, 6)
 }
 
 fn v32(rng: &mut Rng, g: &G, pool: &[f32]) -> String {
+	if dist_on(rng, g) {
+		let (a, b) = (o32(rng.pick(pool)), o32(rng.pick(pool)));
+		return dist_value(rng, a, b);
+	}
 	if g.mods && g.lfos + g.tweeners > 0 && rng.chance(1, 5) {
 		let a = rng.pick(pool);
 		let b = rng.pick(pool);
@@ -1138,6 +1155,10 @@ fn v32(rng: &mut Rng, g: &G, pool: &[f32]) -> String {
 	}
 }
 fn v64(rng: &mut Rng, g: &G, pool: &[f64]) -> String {
+	if dist_on(rng, g) {
+		let (a, b) = (o64(rng.pick(pool)), o64(rng.pick(pool)));
+		return dist_value(rng, a, b);
+	}
 	if g.mods && g.lfos + g.tweeners > 0 && rng.chance(1, 5) {
 		let a = rng.pick(pool);
 		let b = rng.pick(pool);
@@ -1154,6 +1175,123 @@ const MIXES: &[f32] = &[0.0, 1.0, 0.5, 0.25, 1.0, -0.5, 1.5];
 
 fn gen_db(rng: &mut Rng, g: &G) -> String {
 	v32(rng, g, DBS)
+}
+
+// ---- spatial scenes: vectors, quaternions, listeners, spatial tracks
+
+fn fmt_vec(v: &[f32]) -> String {
+	v.iter().map(|x| o32(*x)).collect::<Vec<_>>().join(",")
+}
+
+fn gen_vec3_raw(rng: &mut Rng) -> String {
+	const POOL: &[[f32; 3]] = &[
+		[0.0, 0.0, 0.0],
+		[0.0, 0.0, 0.0],
+		[1.0, 0.0, 0.0],
+		[-1.0, 0.0, 0.0],
+		[0.0, 0.0, -1.0],
+		[-3.0, 0.0, 4.0],
+		[0.0, 2.0, -10.0],
+		[50.0, 2.0, -30.0],
+		[0.05, 0.0, 0.02],
+		[0.0225, 0.0, 0.02195],
+		[0.1, 0.0, 0.0],
+		[100.0, 0.0, 0.0],
+		[0.0, 0.0, 5.0],
+		[1000.0, -1000.0, 1000.0],
+	];
+	if rng.chance(1, 3) {
+		let r = |rng: &mut Rng| (rng.uniform(-12.0, 12.0)) as f32;
+		fmt_vec(&[r(rng), r(rng) * 0.25, r(rng)])
+	} else {
+		fmt_vec(&rng.pick(POOL))
+	}
+}
+
+fn gen_quat_raw(rng: &mut Rng) -> String {
+	const H: f32 = std::f32::consts::FRAC_1_SQRT_2;
+	const POOL: &[[f32; 4]] = &[
+		[0.0, 0.0, 0.0, 1.0],
+		[0.0, 0.0, 0.0, 1.0],
+		[0.0, H, 0.0, H],
+		[0.0, -H, 0.0, H],
+		[0.0, 1.0, 0.0, 0.0],
+		[H, 0.0, 0.0, H],
+		[0.0, 0.0, 0.0, -1.0],
+		[0.0, 0.0, 0.0, 0.0],
+		[0.0, 0.0, 0.0, 2.0],
+		[0.5, 0.5, 0.5, 0.5],
+		[1e-30, 0.0, 0.0, 1e-30],
+	];
+	if rng.chance(1, 3) {
+		let r = |rng: &mut Rng| rng.uniform(-1.0, 1.0) as f32;
+		let (x, y, z, w) = (r(rng), r(rng), r(rng), r(rng));
+		let n = (x * x + y * y + z * z + w * w).sqrt();
+		if n > 1e-3 && rng.chance(3, 4) {
+			fmt_vec(&[x / n, y / n, z / n, w / n])
+		} else {
+			fmt_vec(&[x, y, z, w])
+		}
+	} else {
+		fmt_vec(&rng.pick(POOL))
+	}
+}
+
+/// a `Value<Vector3>` / `Value<Quaternion>` descriptor: mostly fixed, sometimes linked to a modulator or the listener distance
+fn gen_vq(rng: &mut Rng, g: &G, raw: fn(&mut Rng) -> String) -> String {
+	if dist_on(rng, g) {
+		let (a, b) = (raw(rng), raw(rng));
+		return dist_value(rng, a, b);
+	}
+	if g.mods && g.lfos + g.tweeners > 0 && rng.chance(1, 6) {
+		let (i0, i1) = rng.pick(&[(-1.0, 1.0), (0.0, 1.0), (1.0, -1.0)]);
+		return format!("m{}{}_{}_{}_{}_{}", rng.pick(&['l', 't']), rng.below(3), o64(i0), o64(i1), raw(rng), raw(rng));
+	}
+	format!("f{}", raw(rng))
+}
+fn gen_p(rng: &mut Rng, g: &G) -> String {
+	gen_vq(rng, g, gen_vec3_raw)
+}
+fn gen_q(rng: &mut Rng, g: &G) -> String {
+	gen_vq(rng, g, gen_quat_raw)
+}
+
+const DISTANCES: &[(f32, f32)] =
+	&[(1.0, 100.0), (1.0, 100.0), (1.0, 10.0), (0.0, 5.0), (5.0, 5.0), (10.0, 1.0), (0.0, 0.0), (0.5, 50.0), (-1.0, 3.0), (3.0, 3.5)];
+const STRENGTHS: &[f32] = &[0.75, 0.75, 0.0, 1.0, 0.5, 1.5, -0.5, 0.25];
+
+fn gen_listener_ref(rng: &mut Rng, g: &G) -> String {
+	if g.ghosts > 0 && rng.chance(1, 6) {
+		format!("g{}", rng.below(3))
+	} else {
+		format!("l{}", rng.below(3))
+	}
+}
+
+fn gen_strack(rng: &mut Rng, g: &mut G, parent: i64, lref: String) -> String {
+	let (mn, mx) = rng.pick(DISTANCES);
+	let att = if rng.chance(1, 4) { "none".to_string() } else { fmt_easing(&gen_easing(rng)) };
+	let sends = match rng.below(5) {
+		0 if g.sends > 0 => format!("{}={}", rng.below(3), gen_db(rng, g)),
+		_ => "-".to_string(),
+	};
+	let line = format!(
+		"strack {} {} {} {} {} {} {} {} {} {} {}",
+		parent,
+		lref,
+		gen_p(rng, g),
+		o32(mn),
+		o32(mx),
+		att,
+		v32(rng, g, STRENGTHS),
+		gen_db(rng, g),
+		rng.below(2),
+		sends,
+		gen_fx_list(rng, g)
+	);
+	g.tracks += 1;
+	g.spatial += 1;
+	line
 }
 
 fn gen_cs_fixed(rng: &mut Rng) -> String {
@@ -1353,7 +1491,68 @@ fn gen_case(rng: &mut Rng, thorough: bool, stats: &mut Stats, out: &mut Vec<Stri
 			if rng.chance(2, 3) { "n=0~end" } else { "none" }
 		));
 	}
+	let spatial_on = std::env::var("KV_SYSCORE_NOSPATIAL").is_err();
+	if spatial_on && rng.chance(1, 2) {
+		// an audible spatial bed: a listener, a spatial track bound to it, a looping sound on the track
+		out.push(format!("listener {} {}", gen_p(rng, &g), gen_q(rng, &g)));
+		g.listeners += 1;
+		let st = gen_strack(rng, &mut g, -1, "l0".into());
+		out.push(st);
+		out.push(format!(
+			"play {} {} {} 48000 f{} f{} f{} n=0~end 0 n=0 - imm",
+			g.tracks - 1,
+			rng.pick(&["idx", "lr", "dc=3e800000", "rnd=77"]),
+			rng.pick(&[64u64, 1000, 4000]),
+			o32(rng.pick(&[0.0f32, -6.0])),
+			o64(1.0),
+			o32(rng.pick(&[0.0f32, 0.0, -1.0, 0.5]))
+		));
+		g.sounds += 1;
+		stats.hit("spatial_bed");
+	}
 	for _ in 0..steps {
+		if spatial_on && rng.chance(1, 25) {
+			// nesting: an outer spatial track (its own effect / send / a plain child may follow ITS listener distance), an
+			// inner spatial track bound to another listener (own info wins), sounds on the inner track and on the plain
+			// child; then the outer listener moves and the inner listener is dropped
+			out.push(format!("listener {} {}", gen_p(rng, &g), gen_q(rng, &g)));
+			out.push(format!("listener {} {}", gen_p(rng, &g), gen_q(rng, &g)));
+			g.listeners += 2;
+			let (la, lb) = (g.listeners - 2, g.listeners - 1);
+			let outer = gen_strack(rng, &mut g, -1, format!("l{}", la));
+			out.push(outer);
+			let o = g.tracks as i64 - 1;
+			let inner = gen_strack(rng, &mut g, o, format!("l{}", lb));
+			out.push(inner);
+			let i = g.tracks - 1;
+			out.push(format!("track {} {} 0 - {}", o, gen_db(rng, &g), gen_fx_list(rng, &mut g)));
+			g.tracks += 1;
+			let c = g.tracks - 1;
+			for t in [i, c] {
+				out.push(format!(
+					"play {} {} 4000 48000 {} f{} {} n=0~end 0 n=0 - imm",
+					t,
+					rng.pick(&["idx", "lr", "dc=3e800000"]),
+					gen_db(rng, &g),
+					o64(rng.pick(&[1.0, 1.0, 0.5])),
+					v32(rng, &g, PANS)
+				));
+				g.sounds += 1;
+			}
+			out.push(gen_cb(rng, &g));
+			out.push(format!("lis.pos {} {} {}", la, gen_p(rng, &g), gen_tween(rng, &g)));
+			out.push(format!("trk {} pos {} {}", rng.pick(&[o as u64, i]), gen_p(rng, &g), gen_tween(rng, &g)));
+			for _ in 0..rng.range(1, 3) {
+				out.push(gen_cb(rng, &g));
+			}
+			out.push(format!("drop listener {}", lb));
+			g.listeners -= 1;
+			g.ghosts += 1;
+			for _ in 0..rng.range(2, 3) {
+				out.push(gen_cb(rng, &g));
+			}
+			stats.hit("burst_nested_spatial");
+		}
 		if rate_on && fx_kinds() >= 5 && rng.chance(1, 40) {
 			// a track or send with a rate-dependent effect (delay / reverb) that is still in the new-resource ring
 			// when the device rate changes, then heard
@@ -1468,7 +1667,7 @@ fn gen_case(rng: &mut Rng, thorough: bool, stats: &mut Stats, out: &mut Vec<Stri
 			}
 			stats.hit("burst_chain");
 		}
-		let line = match rng.below(48) {
+		let line = match rng.below(if spatial_on { 58 } else { 48 }) {
 			0 | 1 => {
 				g.sends += 1;
 				format!("send {} {}", gen_db(rng, &g), gen_fx_list(rng, &mut g))
@@ -1605,6 +1804,34 @@ fn gen_case(rng: &mut Rng, thorough: bool, stats: &mut Stats, out: &mut Vec<Stri
 				format!("drop {} {}", kind, rng.below(4))
 			}
 			34 | 35 if rate_on => format!("rate {}", rng.pick(RATES)),
+			48 => {
+				g.listeners += 1;
+				format!("listener {} {}", gen_p(rng, &g), gen_q(rng, &g))
+			}
+			49 | 50 if g.listeners + g.ghosts > 0 => {
+				let lref = gen_listener_ref(rng, &g);
+				let parent = rng.range(-1, 3);
+				gen_strack(rng, &mut g, parent, lref)
+			}
+			51 | 52 if g.listeners > 0 => {
+				if rng.chance(1, 2) {
+					format!("lis.pos {} {} {}", rng.below(3), gen_p(rng, &g), gen_tween(rng, &g))
+				} else {
+					format!("lis.ori {} {} {}", rng.below(3), gen_q(rng, &g), gen_tween(rng, &g))
+				}
+			}
+			53 | 54 if g.spatial > 0 => {
+				if rng.chance(2, 3) {
+					format!("trk {} pos {} {}", rng.below(4), gen_p(rng, &g), gen_tween(rng, &g))
+				} else {
+					format!("trk {} str {} {}", rng.below(4), v32(rng, &g, STRENGTHS), gen_tween(rng, &g))
+				}
+			}
+			55 if g.listeners > 0 => {
+				g.listeners -= 1;
+				g.ghosts += 1;
+				format!("drop listener {}", rng.below(3))
+			}
 			_ => gen_cb(rng, &g),
 		};
 		stats.hit(line.split(' ').next().unwrap());
